@@ -145,7 +145,7 @@ def inspect(acc, case, pool, last, st, n_before=None, invalid_before=()):
                 u = q.to(q.unit).unit
             except OK_EXC:
                 continue
-            if a != q.value or b != q.value or u != q.unit:
+            if a != q.value or b != q.value or u != q.unit or (q * 1).unit != q.unit:
                 acc.violation(f'C19/program/subkind-copies-disagree/{kind}/{opname}', 'value/unit observed through arithmetic equal the public ones', case,
                               {'object': idx, 'value': q.value, '(x*1).value': a, 'x.to(unit).value': b})
 
